@@ -210,6 +210,9 @@ def _check(ctx: Ctx) -> None:
         f2 = p.func(q)
         ctx.analysed(f2)
         calls = [c for c in walk_local(f2.node) if isinstance(c, ast.Call) and call_method(c)[1] in ("equals", "__eq__")]
+        # `a == b` between the two absolute views is the same delegation written with the operator
+        calls += [c for c in walk_local(f2.node) if isinstance(c, ast.Compare) and len(c.ops) == 1 and isinstance(c.ops[0], ast.Eq)
+                  and all(isinstance(x, ast.Attribute) and x.attr == "abs" for x in (c.left, c.comparators[0]))]
         ctx.check(bool(calls), "DELEG", f"{q} delegates to the absolute view's equals", function=q,
                   construct="equality entry point does not delegate to equals", message="", file=f2.file, node=f2.node)
     se = p.func("Sequence.equals")
@@ -414,8 +417,8 @@ def wrapper_rules(ctx: Ctx) -> None:
         other = fq.params[1]
         guard_ok(fq, other)
         rets = [r for r in walk_local(fq.node) if isinstance(r, ast.Return) and not isinstance(r.value, ast.Constant)]
-        ok = len(rets) == 1 and not path_conditions(rets[0]) and src(rets[0].value) in (f"self.abs.__eq__({other}.abs)", f"self.abs == {other}.abs", f"self.equals({other})",
-                                                                                         f"self.abs.equals({other}.abs)")
+        ok = len(rets) == 1 and not path_conditions(rets[0]) and src(rets[0].value) in (f"self.abs.__eq__({other}.abs)", f"self.abs == {other}.abs", f"{other}.abs == self.abs",
+                                                                                         f"self.equals({other})", f"self.abs.equals({other}.abs)")
         ctx.check(ok, "EQW", "Sequence.__eq__ compares the absolute views", function=fq.qualname, construct="Sequence.__eq__ does not compare the two absolute views",
                   message=f"{[short(r) for r in rets]}", file=fq.file, node=rets[0] if rets else fq.node)
     fa = p.functions.get("AbsoluteSequence.__eq__")
